@@ -70,6 +70,25 @@ CHECKS = {
             "breaker observed through a delegating subclass; classification without retry is the library's own "
             "default_classifier",
             "5/C09"),
+    "C12": ("model_checking",
+            "differential execution of every TLC-exported behaviour of RetryLoop.tla (plus raising-callback variants) "
+            "through all 14 entry points of the real library, call- and execute-style; pairwise comparison of "
+            "normalised traces; the call/execute delivery relation CallOfExec is an invariant of M and is checked "
+            "by TLC (PairCheck.tla) on the pairs of real deliveries",
+            "on the exported scenario space (exhaustive for the export configuration) all entry points perform the "
+            "same invocations, strategy calls, sleeps, events, hook and budget interactions, and the call()/execute() "
+            "deliveries are related; six call-vs-execute divergences under raising callbacks are known findings",
+            "scripted deterministic environment; relational verdict decided on executions of the real code",
+            "5/C12"),
+    "C15": ("model_checking",
+            "differential execution of every TLC-exported behaviour (retry level: RetryLoop.tla; policy level with "
+            "breaker events: PolicyCall.tla) with on_metric / on_log / before_sleep raising at each invocation index "
+            "and always, several exception types, sync and async (awaitable hooks), with and without timeline capture; "
+            "the trace must equal the silent-hook trace, which is itself compared with M's prediction",
+            "for every exported behaviour and every hook invocation index the run is unchanged by a raising hook and "
+            "the other sinks still receive every event",
+            "hooks raise subclasses of Exception; scenario space bounded by spec/RetryMC_C15x.cfg and PolicyMC_C15x.cfg",
+            "5/C15"),
     "C06": ("model_checking",
             "TLC exhaustive check of Breaker.tla (deque model M vs unpruned-log reference P) + replay of "
             "every transition of M's exported graph on the real CircuitBreaker + TLC trace validation "
